@@ -375,6 +375,10 @@ func c19Fanout(p *Program, r *Report) {
 		r.Unresolved("Publish has no range loop over subscribers")
 		return
 	}
+	// the snapshot may also be a slice filled under the lock from the shared table and delivered from outside it
+	if c19FanoutSlice(p, r, g, fn, event, rng) {
+		return
+	}
 	snap := true
 	for _, x := range g.values(rng.X) {
 		switch y := x.(type) {
@@ -709,4 +713,104 @@ func c19UnsubscribeOwner(p *Program, r *Report) {
 	if n == 0 {
 		r.Unresolved("no call of UnsubscribeAll in the module")
 	}
+}
+
+// c19FanoutSlice: the slice form of the fan-out — under the lock every element of the by-type table is appended exactly once to a
+// slice created in Publish; the delivery loop indexes that slice and tells each element exactly once. Returns false when the
+// tells do not have that shape (the map form is judged by the caller).
+func c19FanoutSlice(p *Program, r *Report, g *IG, fn *ssa.Function, event *ssa.Parameter, rng *ssa.Range) bool {
+	tells := p.tellSites(fn)
+	if len(tells) == 0 {
+		return false
+	}
+	var slices []ssa.Value
+	tellNodes := map[int]bool{}
+	good := true
+	for _, ts := range tells {
+		ld, ok := strip(ts.Recipient).(*ssa.UnOp)
+		if !ok || ld.Op != token.MUL {
+			return false
+		}
+		ia, ok := ld.X.(*ssa.IndexAddr)
+		if !ok {
+			return false
+		}
+		if _, isSl := ia.X.Type().Underlying().(*types.Slice); !isSl {
+			return false
+		}
+		slices = append(slices, ia.X)
+		tellNodes[g.Idx[ts.In]] = true
+		if strip(ts.Message) != ssa.Value(event) {
+			good = false
+		}
+		if ts.System != nil {
+			if b, ok := constBool(ts.System); !ok || b {
+				good = false
+			}
+		}
+	}
+	// the slice: every value it can hold is nil, a make in Publish, or an append to such a value of a ranged element of the table
+	var next *ssa.Next
+	for _, in := range g.Nodes {
+		if x, ok := in.(*ssa.Next); ok && x.Iter == ssa.Value(rng) {
+			next = x
+		}
+	}
+	appends := map[int]bool{}
+	snap := next != nil
+	seen := map[ssa.Value]bool{}
+	var local func(v ssa.Value) bool
+	local = func(v ssa.Value) bool {
+		if seen[v] {
+			return true
+		}
+		seen[v] = true
+		switch x := v.(type) {
+		case *ssa.Const:
+			return x.Value == nil
+		case *ssa.MakeSlice:
+			return true
+		case *ssa.Slice:
+			return local(x.X)
+		case *ssa.Alloc:
+			return true
+		case *ssa.Phi:
+			for _, e := range x.Edges {
+				if !local(e) {
+					return false
+				}
+			}
+			return true
+		case *ssa.Call:
+			b, isB := x.Call.Value.(*ssa.Builtin)
+			if !isB || b.Name() != "append" || len(x.Call.Args) != 2 {
+				return false
+			}
+			// the appended element(s): a one-element variadic slice holding the ranged value
+			elems, _ := varargElems(x.Call.Args[1])
+			if len(elems) != 1 || next == nil || !derivesFromExtract(elems[0], next, 2) {
+				return false
+			}
+			if i, ok := g.Idx[x]; ok {
+				appends[i] = true
+			}
+			return local(x.Call.Args[0])
+		}
+		return false
+	}
+	for _, sl := range slices {
+		if !local(sl) {
+			snap = false
+		}
+	}
+	// the table ranged while filling is the by-type entry (a lookup in the shared table), and every element is appended once
+	okFill := false
+	if snap && len(appends) > 0 {
+		okFill, _ = g.loopExactlyOnce(appends)
+	}
+	r.Check(snap && okFill, "Publish iterates a snapshot", rng.Pos(), "the delivery loop indexes a slice created in Publish, to which every element of the by-type table was appended exactly once (under the lock)")
+	okOnce, why := g.loopExactlyOnce(tellNodes)
+	r.Check(good && okOnce, "Publish tells each snapshot element exactly once", firstPos(g, tellNodes),
+		"in the delivery loop every iteration performs exactly one tell(system=false, recipient=the indexed element of the snapshot, message=the published event) and never leaves the loop early "+why)
+	return true
 }
